@@ -16,6 +16,12 @@ package c19
 // already be in the first rendering, so that rendering (and the definer's) is compared with
 // the reference model as well and a difference there is reported under a clause of its own
 // (sequence-reference): "the text was already wrong before this unit's definer ran".
+//
+// Clauses: sequence (second rendering of the user differs from the first, the definer
+// defines a name the user reaches through its style, extends or fallback links and does not
+// define itself), sequence-unrelated-definer (same difference although the definer defines
+// no such name), sequence-reference (first rendering of the user, or the definer's, differs
+// from the reference model).
 
 import (
 	"fmt"
